@@ -376,6 +376,68 @@ func checkC07(c *mc.Ctx) {
 		c.Ev.Class("pmt-lists-pmt-pids", n)
 		c.Ev.AddScenario(mc.Scenario{Name: "pmt-lists-pmt-pids-merges", SpaceSize: n, Executed: n, Exhaustive: true, Bound: "PAT first, then all merges of two PMT units on one PMT PID (listing both PMT PIDs as elementary PIDs) with three PMT units on the other"})
 	}
+	// byte-identical payload units on several PIDs at once (the same audio on two PIDs, one PMT section carried on
+	// the PMT PIDs of two programmes, the same SDT on the SDT PID and on a PMT PID): what a PID delivers carries
+	// that PID, whatever an identical unit on another PID has just delivered
+	{
+		var n int64
+		ccs := []uint8{0, 5, 9, 13, 2, 7}
+		pat := modelPAT(1, 0x200, 2, 0x201)
+		pmt := modelPMT(1, 0x100, 2)
+		pmtB := modelPMT(1, 0x100, 3)
+		pes := PESUnit(0, 0xc0, pesPayload(33, 120, c.Seed), 33, true)
+		mkPMT := func(pid uint16, d *astits.PMTData, v uint8) []*ref.Pkt {
+			return Packetize(PSIUnit(pid, 0, [][]byte{SecPMT(d, ref.SecHdr{CNI: true, Version: v})}, nil), nil, &ccs[1+int(pid&1)], true)
+		}
+		mkPES := func(pid uint16) []*ref.Pkt {
+			u := pes
+			u.PID = pid
+			return Packetize(u, nil, &ccs[3+int(pid&1)], false)
+		}
+		lists := [][]*ref.Pkt{
+			Packetize(PSIUnit(0, 0, [][]byte{SecPAT(pat, ref.SecHdr{CNI: true})}, nil), nil, &ccs[0], true),
+			append(mkPMT(0x200, pmt, 0), mkPMT(0x200, pmtB, 1)...),
+			append(mkPMT(0x201, pmt, 0), mkPMT(0x201, pmtB, 1)...),
+			append(mkPES(0x100), mkPES(0x100)...),
+			append(mkPES(0x101), mkPES(0x101)...),
+		}
+		want := map[uint16]int{0: 1, 0x200: 2, 0x201: 2, 0x100: 2, 0x101: 2}
+		var solo map[uint16][]string
+		lens := []int{len(lists[0]), len(lists[1]), len(lists[2]), len(lists[3]), len(lists[4])}
+		mc.Merges(lens, func(o []int) bool {
+			if o[0] != 0 {
+				return true // the PAT comes first
+			}
+			st := BuildStream("identical-units-on-several-pids", lists, append([]int{}, o...), nil)
+			out := DemuxBytes(st.Bytes)
+			got := map[uint16][]string{}
+			for _, d := range out.Data {
+				x := *d
+				x.FirstPacket = nil
+				got[d.PID] = append(got[d.PID], mc.Canon(&x))
+			}
+			if solo == nil {
+				solo = got // the first merge: one PID after the other
+				for pid, k := range want {
+					if len(got[pid]) != k {
+						c.Rep.Report("identical-units-baseline", map[string]any{"kind": "stream", "what": fmt.Sprintf("order %v", o), "bytes": mc.Hex(st.Bytes), "message": fmt.Sprintf("PID %#x delivers %d data, %d units carried", pid, len(got[pid]), k)})
+					}
+				}
+			}
+			bad := out.Panic != nil || len(out.Errs) > 0 || len(got) != len(solo)
+			for pid, g := range got {
+				bad = bad || !equalStrs(g, solo[pid])
+			}
+			if bad {
+				c.Rep.Report("pid-affected-by-identical-unit-on-another-pid", map[string]any{"kind": "stream", "what": fmt.Sprintf("order %v", o), "bytes": mc.Hex(st.Bytes), "message": fmt.Sprintf("two PMT PIDs and two audio PIDs carry byte-identical units: under this interleaving the data per PID differ from the PIDs one after the other (errors %v)", errStrings(out.Errs))})
+			}
+			n++
+			return true
+		})
+		c.Ev.DistinctAdd(n)
+		c.Ev.Class("identical-units-on-several-pids", n)
+		c.Ev.AddScenario(mc.Scenario{Name: "identical-units-merges", SpaceSize: n, Executed: n, Exhaustive: true, Bound: "PAT first, then all merges of two PMT PIDs and two audio PIDs that carry the same two units each"})
+	}
 
 	// insertions: null, adaptation-only of a used PID, TEI packet of a used PID, at every position of
 	// several base schedules
